@@ -29,8 +29,8 @@ def _corrupt(evs):
 
 def plans(tier):
     if tier == "quick":
-        return [("d1-random", 1, 1), ("d2-random", 1, 2), ("d3-random", 1, 60), ("sim-random-share", 1, 1), ("sim-random", 1, 2), ("d2-random-pair", 1, 1)]
-    return [("d1-random", 1, 1), ("d2-random", 1, 1), ("d3-random", 1, 4), ("sim-random-share", 1, 1), ("sim-random", 1, 1), ("d2-random-pair", 1, 1)]
+        return [("d1-random", 1, 1), ("d2-random", 1, 2), ("d3-random", 1, 60), ("sim-random-share", 1, 1), ("sim-random", 1, 2), ("d2-random-pair", 1, 1), ("d2-random-share", 1, 1)]
+    return [("d1-random", 1, 1), ("d2-random", 1, 1), ("d3-random", 1, 4), ("sim-random-share", 1, 1), ("sim-random", 1, 1), ("d2-random-pair", 1, 1), ("d2-random-share", 1, 1)]
 
 
 def run(chk):
